@@ -71,7 +71,11 @@ class RadarSession:
         return self.p.alive()
 
     def panicked(self):
-        return "panicked" in self.stderr() or "panicked" in self.p.out.decode(errors="replace")
+        """a panic of the main thread (a helper thread that dies - the gpsd reader after a refused
+        handshake - leaves radar running; whether radar then stays alive and quits cleanly is what
+        the caller checks)"""
+        t = self.stderr() + self.p.out.decode(errors="replace")
+        return "thread 'main'" in t and "panicked" in t
 
     # ---- actions
     def send(self, data: bytes):
@@ -103,7 +107,9 @@ class RadarSession:
         """request quit; returns dict of observations"""
         self.p.pump(0.05)
         mark = len(self.p.out)
-        self.p.write(b"q" if how == "q" else b"\x03")
+        # a quit key alone, or followed by further keys in the same write (type-ahead, a paste)
+        keys = {"q": b"q", "ctrl-c": b"\x03", "q+enter": b"q\r", "ctrl-c+down": b"\x03\x1b[B"}
+        self.p.write(keys.get(how, b"q"))
         rc = self.p.wait_exit(timeout)
         tail = bytes(self.p.out[mark:]).decode(errors="replace")
         allout = bytes(self.p.out).decode(errors="replace")
